@@ -9,8 +9,8 @@ claim("C01", U + "For bare single-operator programs - Atom[c], Atom[c1,c2] (flag
       "every search start; plus full-width (all usize) min<=max arithmetic of the four repeat operators.", "DESIGN.md 4 C01")
 claim("C02", U + "Same programs: match start = leftmost admissible position, match end = longest admissible run for greedy operators and "
       "shortest for reluctant ones (zero-occurrence first); complete yield order of the GreedyFixed (strictly descending, never below "
-      "min, body length 1 and 2) and ReluctantFixed (ascending) iterators; prefix scan with a proper, self-overlapping prefix "
-      "(thorough); the quantifier lowering in the compiler (piece(), verbatim slice) gives every quantified term the right bounds and "
+      "min, body length 1 and 2) and ReluctantFixed (ascending) iterators; the prefix scan never skips an occurrence of a "
+      "three-character literal; the quantifier lowering in the compiler (piece(), verbatim slice) gives every quantified term the right bounds and "
       "the right greedy/reluctant flag. Offsets are char offsets over all scalar values. Priority between alternatives / "
       "earlier-term dominance is outside.",
       "DESIGN.md 4 C02")
